@@ -325,6 +325,16 @@ def include_cases(d):
     out.append(('include:bad-glob', 'malformed glob pattern', {'main.toml': 'include = ["[.toml", "***", "a/**b"]\n' + good}))
     out.append(('include:symlink-loop', 'symlink to itself', {'main.toml': 'include = ["loop.toml"]\n' + good, 'loop.toml': C.Raw('SYMLINK:loop.toml')}))
     out.append(('include:broken-child', 'included file is not TOML', {'main.toml': 'include = ["b.toml"]\n' + good, 'b.toml': '= = ='}))
+    # the same cycles written with other spellings of the path ({DIR} = name of the case directory, {ABS} = its absolute path)
+    out.append(('include:self-dotdot', 'a file including itself through ../<dir>/', {'main.toml': 'include = ["../{DIR}/main.toml"]\n' + good}))
+    out.append(('include:self-dot', 'a file including itself as ./main.toml and .//main.toml', {'main.toml': 'include = ["./main.toml", ".//main.toml"]\n' + good}))
+    out.append(('include:self-subdir-dotdot', 'a file including itself as sub/../main.toml', {'main.toml': 'include = ["sub/../main.toml"]\n' + good, 'sub/x.toml': ''}))
+    out.append(('include:self-absolute', 'a file including itself by absolute path', {'main.toml': 'include = ["{ABS}/main.toml"]\n' + good}))
+    out.append(('include:cycle-2-dotdot', 'main -> sub/b.toml -> ../main.toml', {'main.toml': 'include = ["sub/b.toml"]\n' + good, 'sub/b.toml': 'include = ["../main.toml"]\n'}))
+    out.append(('include:cycle-symlink-glob', 'conf.d/*.toml where conf.d/all.toml is a symbolic link to the including file',
+                {'main.toml': 'include = ["conf.d/*.toml"]\n' + good, 'conf.d/all.toml': C.Raw('SYMLINK:../main.toml')}))
+    out.append(('include:cycle-symlink-dir', 'include through a directory link pointing back to the directory', {'main.toml': 'include = ["link/main.toml"]\n' + good, 'link': C.Raw('SYMLINK:.')}))
+    out.append(('include:cycle-symlink-alias', 'a -> alias.toml (link to b.toml) -> a', {'main.toml': 'include = ["alias.toml"]\n' + good, 'b.toml': 'include = ["main.toml", "alias.toml"]\n', 'alias.toml': C.Raw('SYMLINK:b.toml')}))
     out.append(('include:deep-chain', '200 files each including the next', dict(
         [('main.toml', 'include = ["f0.toml"]\n' + good)] + [('f%d.toml' % i, 'include = ["f%d.toml"]\n' % (i + 1) if i < 199 else '') for i in range(200)])))
     return out
@@ -341,7 +351,7 @@ def write_case(d, idx, case):
             if isinstance(text, C.Raw) and text.startswith('SYMLINK:'):
                 os.symlink(text[8:], p)
             else:
-                open(p, 'w').write(text)
+                open(p, 'w').write(text.replace('{DIR}', os.path.basename(cd)).replace('{ABS}', cd))
     elif 'bytes' in case:
         open(path, 'wb').write(case['bytes'])
     elif 'text' in case:
